@@ -116,6 +116,80 @@ type facts struct {
 	defaults int
 	groups   map[string]int // decode group name -> number of formats
 	otypes   [][2]string    // _opt_options: key, type
+	dflt     [][2]string    // _opt_build_default_fixed on the virtual OS: key, encoded value
+}
+
+// encJV: the flat value codec of Drv/C17.lean (N null, T/F, I<int>, S<hex>, A<hex+hex…|.>, P<hex~hex+…|.>, Z = [null], X = other)
+func encJV(v any) string {
+	switch x := v.(type) {
+	case nil:
+		return "N"
+	case bool:
+		if x {
+			return "T"
+		}
+		return "F"
+	case int:
+		return fmt.Sprintf("I%d", x)
+	case string:
+		return "S" + hx(x)
+	case []any:
+		if len(x) == 0 {
+			return "A." // the empty array is both the empty string list and the empty pair list (the driver treats them alike)
+		}
+		if len(x) == 1 && x[0] == nil {
+			return "Z"
+		}
+		allStr, allPair := true, true
+		for _, e := range x {
+			if _, ok := e.(string); !ok {
+				allStr = false
+			}
+			p, ok := e.([]any)
+			if !ok || len(p) != 2 {
+				allPair = false
+			} else {
+				_, ok1 := p[0].(string)
+				_, ok2 := p[1].(string)
+				if !ok1 || !ok2 {
+					allPair = false
+				}
+			}
+		}
+		if allStr {
+			out := make([]string, len(x))
+			for i, e := range x {
+				out[i] = hx(e.(string))
+			}
+			return "A" + strings.Join(out, "+")
+		}
+		if allPair {
+			out := make([]string, len(x))
+			for i, e := range x {
+				p := e.([]any)
+				out[i] = hx(p[0].(string)) + "~" + hx(p[1].(string))
+			}
+			return "P" + strings.Join(out, "+")
+		}
+	}
+	return "X"
+}
+
+func encObj(m map[string]any, keys []string) string {
+	if keys == nil {
+		for k := range m {
+			keys = append(keys, k)
+		}
+		sort.Strings(keys)
+	}
+	out := make([]string, 0, len(keys))
+	for _, k := range keys {
+		out = append(out, hx(k)+":"+encJV(m[k]))
+	}
+	if len(out) == 0 {
+		return "."
+	}
+	return strings.Join(out, ",")
 }
 
 func truthy(v any) bool {
@@ -177,6 +251,21 @@ func loadFacts() facts {
 		kv := e.([]any)
 		f.otypes = append(f.otypes, [2]string{kv[0].(string), kv[1].(string)})
 	}
+	vs, err = evalJQ(`_opt_build_default_fixed`, nil)
+	if err != nil || len(vs) != 1 {
+		panic(fmt.Sprintf("cannot evaluate _opt_build_default_fixed: %v", err))
+	}
+	{
+		m := vs[0].(map[string]any)
+		ks := make([]string, 0, len(m))
+		for k := range m {
+			ks = append(ks, k)
+		}
+		sort.Strings(ks)
+		for _, k := range ks {
+			f.dflt = append(f.dflt, [2]string{k, encJV(m[k])})
+		}
+	}
 	vs, err = evalJQ(`_registry.groups | map_values(length)`, nil)
 	if err != nil || len(vs) != 1 {
 		panic(fmt.Sprintf("cannot evaluate _registry.groups: %v", err))
@@ -211,8 +300,12 @@ func (f facts) header() string {
 	for i, kv := range f.otypes {
 		ots[i] = hx(kv[0]) + ":" + kv[1]
 	}
-	return fmt.Sprintf("hdr codes=%d,%d,%d,%d,%d defaults=%d opts=%s otypes=%s", f.codes[0], f.codes[1], f.codes[2], f.codes[3], f.codes[4], f.defaults,
-		strings.Join(es, ";"), strings.Join(ots, ","))
+	ds := make([]string, len(f.dflt))
+	for i, kv := range f.dflt {
+		ds[i] = hx(kv[0]) + ":" + kv[1]
+	}
+	return fmt.Sprintf("hdr codes=%d,%d,%d,%d,%d defaults=%d opts=%s otypes=%s dflt=%s", f.codes[0], f.codes[1], f.codes[2], f.codes[3], f.codes[4], f.defaults,
+		strings.Join(es, ";"), strings.Join(ots, ","), strings.Join(ds, ","))
 }
 
 // ---------------------------------------------------------------- the real _args_parse
@@ -528,6 +621,14 @@ func worldNames(argv []string) []string {
 		if strings.HasPrefix(s, "@") {
 			add(s[1:])
 		}
+		// strings inside a JSON text (`-o filenames=["a.json"]`)
+		if strings.Contains(s, `"`) && (strings.HasPrefix(s, "[") || strings.Contains(s, "=[")) {
+			for i, part := range strings.Split(s, `"`) {
+				if i%2 == 1 {
+					add(part)
+				}
+			}
+		}
 	}
 	for _, a := range argv {
 		add(a)
@@ -780,6 +881,16 @@ func (rn *runner) replay(path string) {
 		case "run":
 			av, marks := parseArgvText(get("argv"))
 			rn.runCase(av, marks, get("stdin"))
+		case "opt":
+			av, _ := parseArgvText(get("argv"))
+			rn.optCase(av, get("stdin"))
+		case "ometa":
+			a, _ := parseArgvText(ws[2])
+			b, _ := parseArgvText(ws[3])
+			rn.ometaCase(a, b, get("stdin"))
+		case "bind":
+			av, _ := parseArgvText(get("argv"))
+			rn.bindCase(av)
 		}
 	}
 }
@@ -790,6 +901,7 @@ func main() {
 	defer o.Close()
 	f := loadFacts()
 	rn := &runner{o: o, f: f, p: newPool()}
+	rn.p.addOptFiles()
 	// the header is a case line: the driver validates it and keeps the table
 	o.Case(f.header(), "")
 	if cfg.Replay != "" {
@@ -830,6 +942,21 @@ func main() {
 		}
 	}
 	rn.modeCases(g, nMode)
+	nOpt, nOmeta, nBind := 90, 50, 70
+	if cfg.Thorough() {
+		nOpt, nOmeta, nBind = 900, 500, 600
+	}
+	for i := 0; i < nOpt; i++ {
+		av, stdin := g.optArgv()
+		rn.optCase(av, stdin)
+	}
+	for i := 0; i < nOmeta; i++ {
+		a, b := g.ometaPair()
+		rn.ometaCase(a, b, "j")
+	}
+	for i := 0; i < nBind; i++ {
+		rn.bindCase(g.bindArgv())
+	}
 	o.Stat("parse_cases", nParse)
 	o.Stat("run_cases", nRun)
 }
